@@ -2,7 +2,7 @@ import LlgoVerif.Util
 import LlgoVerif.Model.Layout
 /-! Line-protocol driver for C08.
 
-    `q  <target> <term>`        → `a=<size>,<align>,<offs> b=<size>,<align>,<offs> c=<size>,<align>,<fieldalign>,<offs>`
+    `q  <target> <term>`        → `a=<size>,<align>,<offs> b=<size>,<align>,<offs> c=<size>,<align>,<fieldalign>,<ptrbytes>,<offs>`
     `set align-table fixed|orig`, `set func-words 1|2` → `ok`; select the variant of the descriptor code used by `q`/`mb`
     every `q`/`mb` answer ends with ` e=<size>,<align>` = the descriptor referenced for an element of that type
     `mb <target> <key> <elem>`  → `md=<KeySize>,<ValueSize>,<BucketSize>,<Flags&3> kb=<size>,<align> eb=<size>,<align> ks=<n> es=<n> bs=<n> a=… b=… c=…`
@@ -32,6 +32,10 @@ def expectC (c : Char) : List Char → Option (List Char)
   | d :: r => if c = d then some r else none
   | [] => none
 
+def stripAlias : GoType → GoType
+  | .alias t => stripAlias t
+  | t => t
+
 mutual
 partial def pTerm (cs : List Char) : Option (GoType × List Char) :=
   let (idc, r) := takeIdent cs
@@ -47,7 +51,9 @@ partial def pTerm (cs : List Char) : Option (GoType × List Char) :=
     | "P" => do let r ← expectC '(' r; let (e, r) ← pTerm r; let r ← expectC ')' r; pure (.pointer e, r)
     | "S" => do let r ← expectC '(' r; let (e, r) ← pTerm r; let r ← expectC ')' r; pure (.slice e, r)
     | "C" => do let r ← expectC '(' r; let (e, r) ← pTerm r; let r ← expectC ')' r; pure (.chan e, r)
-    | "N" => do let r ← expectC '(' r; let (e, r) ← pTerm r; let r ← expectC ')' r; pure (.named e, r)
+    | "N" => do
+      let r ← expectC '(' r; let (e, r) ← pTerm r; let r ← expectC ')' r
+      pure (.named (stripAlias e), r)      -- the underlying type of a defined type is never an alias
     | "L" => do let r ← expectC '(' r; let (e, r) ← pTerm r; let r ← expectC ')' r; pure (.alias e, r)
     | "B" => do let r ← expectC '(' r; let (e, r) ← pTerm r; let r ← expectC ')' r; pure (e, r)   -- blank `_` field: names play no role in the model
     | "A" => do
@@ -109,13 +115,14 @@ def layStr (isS : Bool) (l : Layout) : String := s!"{l.size},{l.align},{offsStr 
 structure Variant where
   fixedAlign : Bool := false
   fw : Nat := 1
+  fixedPtrBytes : Bool := false
 
 def three (v : Variant) (tg : Target) (t : GoType) : String :=
   let s := isStruct t
   let c := if v.fixedAlign then abiTableFixed tg t else abiTable tg t
   let ba := if v.fixedAlign then abiBasicAlignFixed tg else abiBasicAlign tg
   let ea := abiAlignG tg ba (publicType (toRaw t))
-  s!"a={layStr s (goSizes tg t)} b={layStr s (llvmLayout tg t)} c={c.size},{c.align},{c.align},{offsStr s c.offsets} e={elemDescSize tg v.fw t},{ea}"
+  s!"a={layStr s (goSizes tg t)} b={layStr s (llvmLayout tg t)} c={c.size},{c.align},{c.align},{ptrBytesG tg v.fixedPtrBytes (toRaw t)},{offsStr s c.offsets} e={elemDescSize tg v.fw t},{ea}"
 
 def showTarget (t : Target) : String :=
   s!"ptr={t.ptrSize} gc={t.gcStyle} word={t.wordSize} maxalign={t.maxAlign} i8={t.llI8} i16={t.llI16} i32={t.llI32} i64={t.llI64} f32={t.llF32} f64={t.llF64} p={t.llPtr} wf={wfTarget t} abiok={abiOK t}"
@@ -124,6 +131,7 @@ def handle (v : Variant) (line : String) : Variant × String :=
   match fields line with
   | ["set", "align-table", x] => ({ v with fixedAlign := x == "fixed" }, "ok")
   | ["set", "func-words", x] => ({ v with fw := x.toNat?.getD 1 }, "ok")
+  | ["set", "ptrbytes", x] => ({ v with fixedPtrBytes := x == "fixed" }, "ok")
   | ["q", tgs, ts] =>
     match parseTarget tgs, parseTerm ts with
     | some tg, some t => (v, three v tg t)
